@@ -206,7 +206,12 @@ class FakeSocket(object):
         self.w.op(self.conn, 'sendall', len(data))
         self._check_open('sendall')
         if self.w.fail_sendall:
-            raise self.w.fail_sendall.pop(0)
+            f = self.w.fail_sendall.pop(0)
+            if isinstance(f, tuple):        # (k, exception): the first k bytes reach the wire, then the call fails
+                k, f = f
+                if k:
+                    self.w.wrote(self.conn, data[:k], True)
+            raise f
         if self.w.split_send and len(data) > 1:
             half = len(data) // 2
             self.w.wrote(self.conn, data[:half], True)
